@@ -18,7 +18,7 @@ def owner_of_allowed(cls):
 
 def gates(ctx, thorough):
     r = tlc.check_model("MC_Host", "MC_Host3" if thorough else "MC_Host", workers=10, heap="12g", timeout=3000)
-    ctx.add_model("MC_Host(depth %d)" % (3 if thorough else 2), r, {"invariants": ["PropInv (OnlyAppendModifies, CompleteImage, AppendPreserves, AppendHappens, CapacityRespected, NewPathHoldsNew)", "NeverLost"]})
+    ctx.add_model("MC_Host(depth %d)" % (3 if thorough else 2), r, {"invariants": ["PropInv (OnlyAppendModifies, CompleteImage, AppendPreserves, AppendHappens, CapacityRespected, NewPathHoldsNew)", "NeverLost", "SamePathTwice"]})
 
 
 def judge(ctx, name, recs, t0, own=None):
@@ -97,6 +97,23 @@ def model_histories(ctx, rnd, n_sample, depth_cfg="MC_HostExport"):
     return first + extra + rest[:n_sample], len(hists)
 
 
+def same_path_histories():
+    """ONE invocation that names the target path under two switches (assembler.py p.asm --to_bin P --to_cas P [--append]; file_util likewise): the tool saves twice,
+    and what the first save created is an existing target for the second.  Judged by the table composed with itself (Tr_Host!AllowedSeq, either order)."""
+    inits = [{"kind": "absent", "big": False, "files": []}, {"kind": "empty", "big": False, "files": []}, {"kind": "cas", "big": False, "files": [101, 102]},
+             {"kind": "dsk", "big": False, "files": [101, 102]}, {"kind": "raw", "big": False, "files": [101]}, {"kind": "junk", "big": False, "files": []}]
+    lst = {"tool": "util", "sw": "list", "sw2": "", "app": False, "named": True, "new": [], "srcn": 0}
+    hists = []
+    for init in inits:
+        for sw, sw2 in (("bin", "cas"), ("bin", "dsk"), ("cas", "dsk")):
+            for app in (False, True):
+                for named in (True, False):
+                    hists.append({"init": init, "cmds": [{"tool": "asm", "sw": sw, "sw2": sw2, "app": app, "named": named, "new": [9], "srcn": 0}, lst]})
+                for srcn, new in ((1, [201]), (2, [201, 202]), (2, [201])):
+                    hists.append({"init": init, "cmds": [{"tool": "util", "sw": sw, "sw2": sw2, "app": app, "named": True, "new": new, "srcn": srcn}, lst]})
+    return hists
+
+
 def run(ctx):
     thorough = ctx.tier == "thorough"
     rnd = random.Random(ctx.seed * 472882027 + int(ctx.prop[1:]))
@@ -106,10 +123,13 @@ def run(ctx):
     ctx.cov["suites"]["export"] = {"tlc_exported_histories": total, "replayed": len(hists)}
     recs = replay_histories(hists, extra_every=3)
     judge(ctx, "model-histories", recs, t0)
+    if ctx.prop == "C10":
+        t0 = time.time()
+        judge(ctx, "same-path-twice-in-one-invocation", replay_histories(same_path_histories()), t0)
     ctx.cov["rule"] = ("histories of <= 2 (thorough: sampled 3) invocations of assembler.py / file_util.py on one target path: {--to_bin, --to_cas, --to_dsk} x {append, not} x "
                        "existing target {absent, 0 bytes, tape, tape >= 161,280 bytes, disk, full disk, raw binary, junk} x {named, unnamed program / all, one, no file selected}; the "
                        "full first-step matrix plus a seeded sample of the TLC-exported two-step histories; run in-process in a temp dir; the post content is read by the "
-                       "specification's tape/disk readers and judged against Host!Allowed and the separately phrased properties. distinct_nontrivial = (tool, switch, append, "
+                       "specification's tape/disk readers (C10 also: one invocation naming the target under two switches, judged by the table composed with itself) and judged against Host!Allowed and the separately phrased properties. distinct_nontrivial = (tool, switch, append, "
                        "named, pre kind, big, new files, post kind) classes")
     ctx.assumptions += ["the kind of an existing target is known by construction (spec state), never re-derived with the tool's sniffing"]
 
